@@ -566,7 +566,6 @@ func mentionsLetters(re *syntax.Regexp) bool {
 	return false
 }
 
-
 // funcValuesCreatedIn: the functions whose values f creates: its function literals (transitively) and, for a method
 // value `x.m`, the method m itself (go/ssa wraps it in a synthetic bound-method closure).
 func funcValuesCreatedIn(f *ssa.Function) []*ssa.Function {
